@@ -70,6 +70,18 @@ func c01Directed(tier string) [][]uint64 {
 			}
 		}
 	}
+	// a genuine signed assertion beyond the traversal budget, re-encrypted by the attacker, followed by a forged sibling
+	enc := uint64(0)
+	for i, o := range world.AttackOps {
+		if o == "attacker_encrypt" {
+			enc = uint64(i)
+		}
+	}
+	for _, place := range []uint64{1, 2} {
+		for _, kind := range []uint64{5, 0, 1} {
+			out = append(out, []uint64{0, 0, 0, 0, place, 0, 0, 0, 0, enc, 0, kind, 0, 0, 0, 0, 0, 0, 0, 0, 1})
+		}
+	}
 	return out
 }
 
@@ -82,6 +94,14 @@ func c04Directed(tier string) [][]uint64 {
 			c2 := append([]uint64{0}, d...)
 			c2[1] = 1 // skip-signature configuration
 			out = append(out, c2)
+		}
+	}
+	inj := uint64(len(world.AttackOps) - 1) // result_field_injection, with checking off and on
+	for where := uint64(0); where < 4; where++ {
+		for form := uint64(0); form < 4; form++ {
+			for place := uint64(0); place < 3; place++ {
+				out = append(out, []uint64{0, 1, 0, 0, 0, place, 0, 0, 0, 0, inj, 0, where, form})
+			}
 		}
 	}
 	for i := uint64(0); i < 40; i++ {
@@ -124,6 +144,9 @@ func ssoAdversarial(r *core.Run, prop string) {
 	for i := 0; i < 10; i++ {
 		q = append(q, t.Draw(1<<16, "adv.param"))
 	}
+	// a first assertion of more than a thousand elements (the signature library's traversal
+	// budget) in the first history message
+	big := t.Int(16, "adv.hist.big") == 1
 	s := NewStd(r)
 	s.DrawLive()
 	untrusted := &world.IdP{Name: "u"}
@@ -176,8 +199,17 @@ func ssoAdversarial(r *core.Run, prop string) {
 			m.Sign = world.PlainSigOpts(key, cert)
 		default:
 			m = world.GenResponse(t, idp, s.Fed, now, n, t.Bool("adv.hist.rich"))
+			if big && i == 0 {
+				vals := make([]string, 1100)
+				for k := range vals {
+					vals[k] = fmt.Sprint("v", k)
+				}
+				m.Assertions[0].HasAttrStmt = true
+				m.Assertions[0].Attrs = append(m.Assertions[0].Attrs, world.LAttr{Name: "bulk", Values: vals})
+				r.Fault("assertion_beyond_traversal_budget")
+			}
 			mk := func() *world.SigOpts {
-				if t.Chance(800, "adv.hist.plainsig") {
+				if t.Chance(800, "adv.hist.plainsig") || (big && i == 0) {
 					return world.PlainSigOpts(key, cert)
 				}
 				return world.DrawSigOpts(t, key, cert)
@@ -252,6 +284,20 @@ func ssoAdversarial(r *core.Run, prop string) {
 		ctx := obs("op", op, "detail", atk.Detail, "history", histSig, "compressed", compress, "skip", s.Cfg.SkipSig, "delivered", trunc(atk.XML, 2500))
 		// where the delivered document keeps its assertions: only direct children of the root count
 		directIDs, hasDirectEnc := world.DirectAssertionIDs(atk.XML)
+		// what the delivered Response carries: direct SAML Assertion children plus direct
+		// EncryptedAssertion children whose plaintext is an assertion
+		carriedPlain, carriedEnc := world.CarriedAssertions(atk.XML)
+		if atk.EncNotAssertion {
+			carriedEnc = 0
+		}
+		carriedAll := func(resp *types.Response) bool {
+			if s.Cfg.SkipSig || resp.SignatureValidated || len(resp.Assertions) == carriedPlain+carriedEnc {
+				return true
+			}
+			ctx["carried"], ctx["returned_count"] = carriedPlain+carriedEnc, len(resp.Assertions)
+			r.Fail("conservation", prop+"/unsigned-response-accepted-with-an-assertion-that-was-not-verified", ctx)
+			return false
+		}
 		located := func(resp *types.Response) bool {
 			if s.Cfg.SkipSig {
 				return true
@@ -277,7 +323,7 @@ func ssoAdversarial(r *core.Run, prop string) {
 					r.Fail("conservation", prop+"/retrieve-accepts-but-validate-rejects", ctx)
 					return
 				}
-				if conservation(r, prop, resp, logs, store, now, s.Cfg.SkipSig, ctx) && located(resp) && !s.Cfg.SkipSig {
+				if conservation(r, prop, resp, logs, store, now, s.Cfg.SkipSig, ctx) && located(resp) && carriedAll(resp) && !s.Cfg.SkipSig {
 					infoConservation(r, prop, ai, ctx)
 				}
 				if ai.ResponseSignatureValidated != resp.SignatureValidated {
@@ -287,8 +333,8 @@ func ssoAdversarial(r *core.Run, prop string) {
 		} else {
 			resp, o := s.Node.ValidateResponse(enc)
 			out = o
-			if o.OK() && conservation(r, prop, resp, logs, store, now, s.Cfg.SkipSig, ctx) {
-				located(resp)
+			if o.OK() && conservation(r, prop, resp, logs, store, now, s.Cfg.SkipSig, ctx) && located(resp) {
+				carriedAll(resp)
 			}
 		}
 		r.Steps++
